@@ -441,3 +441,20 @@ def check_C10(ctx):
 
 def replay_C10(ctx):
     return check_C10(ctx)
+
+
+def check_C09(ctx):
+    def classify(name, fields, run):
+        tag, ident, loaded = fields[1], fields[2], fields[3]
+        if tag == "relock" and loaded == "true" and run["family"].startswith("inbox:"):
+            return ("C09:relock-forwarding-collection", "InboxForwarding re-locks an owned collection whose deferred lock it still holds")
+        return ("C09:%s:%s" % (tag, run["family"]), "%s (faults %s): %s of %s" % (run["family"], run["faults"], tag, ident))
+    return pub_property(ctx, "C09", "Properties/C09.v",
+                        ["Pub/*.v (model of every function of package pub that touches the Database), Pub/Monitors.v lock_step_gen",
+                         "modelled, not verified: Go's defer (per-iteration closures as bracket, function-level defers of InboxForwarding as a pending list released in reverse order at return); Unlock's own error is ignored as in the code"],
+                        {"monitors": ["lock_bad"], "classify": classify,
+                         "rule": "every standard scenario fault-free and with every single fallible call failing (thorough: more scenarios); judged by the strict lock monitor"})
+
+
+def replay_C09(ctx):
+    return check_C09(ctx)
